@@ -101,8 +101,22 @@ def find(prop, failure, R, info, binpath, timeout=600):
             h = standin.hit_from_sweep(prop, binpath, args, line)
             h['extra']['kani_scenarios_tried'] = tried
             return h['extra']
+        # and a long pseudo-random history of the same family (defects that need hundreds of steps)
+        seed = os.environ.get('VERIF_SEED', '0') or '0'
+        long_args = {'bits': ['longrun', 'bits', seed, '5000000'], 'word': ['longrun', 'bits', seed, '5000000'],
+                     'stream1': ['longrun', 'stream1', seed, '3000000'], 'stream2': ['longrun', 'stream2', seed, '3000000'],
+                     'resync1': ['longrun', 'stream1', seed, '3000000'], 'resync2': ['longrun', 'stream2', seed, '3000000'],
+                     'events': ['longrun', '3', seed, '3000000'], 'events_mods': ['longrun', '1', seed, '3000000'], 'events_decode': ['longrun', '2', seed, '3000000'],
+                     'keyboard1': ['fuzz', '1', seed, '5000000'], 'keyboard2': ['fuzz', '2', seed, '5000000']}.get(sc)
+        if long_args:
+            line = standin.sweep(binpath, long_args)
+            tried.append({'native_sweep': ' '.join(long_args), 'result': line[:160]})
+            if line.startswith('FAILS'):
+                h = standin.hit_from_sweep(prop, binpath, long_args, line)
+                h['extra']['kani_scenarios_tried'] = tried
+                return h['extra']
     held = [t['native_sweep'] for t in tried if t.get('native_sweep') and t['result'].startswith('HOLDS')]
-    all_held = len(held) == len(scs)
+    all_held = len(held) >= len(scs) and not any(t.get('native_sweep') and not t['result'].startswith('HOLDS') for t in tried)
     return {'counterexample': None, 'kani_scenarios_tried': tried, 'spurious_bounded': all_held, 'sweeps_held': '; '.join(held),
             'counterexample_search': 'neither Kani nor the native sweeps found a failing input in the scenarios %s' % ', '.join(scs)}
 
